@@ -622,6 +622,9 @@ func (fr *frame) affineBinop(op token.Token, x, y value, isCmp bool) (value, boo
 	if isCmp && ((xExact && yNonInt) || (yExact && xNonInt)) {
 		return nil, false // handled exactly by cmpIntWithConst
 	}
+	if (op == token.MUL || op == token.QUO) && !xAff && !yAff {
+		return nil, false // exact integer x non-integer constant: IEEE semantics in the FP theory
+	}
 	xt, xk, xb, xo, ok1 := fr.asAffine(x)
 	yt, yk, yb, yo, ok2 := fr.asAffine(y)
 	if !ok1 || !ok2 {
